@@ -412,6 +412,91 @@ def shared_pixel_leaf(ctx, lentil):
     return n
 
 
+def outside_mask_leaf(ctx, lentil, rng):
+    """what a plane's OPD array holds OUTSIDE its mask is not data (NaN in a measured map, a sentinel): the least-squares tilt of a
+    segment is the tilt of its samples, so OPD-plus-recorded-tilt is unchanged on the mask and the fitted plane still propagates to the
+    field of the plane itself; likewise an amplitude stored as complex numbers (zero imaginary part) is the same aperture; and fitting
+    in place on a shallow copy of a plane concerns that copy"""
+    import copy
+    import warnings
+    n = 0
+    for _ in range(6):
+        shape = rng.choice(((16, 16), (15, 18)))
+        segmented = rng.random() < 0.5
+        if segmented:
+            masks = np.zeros((2,) + shape)
+            masks[0, 2:7, 2:8] = 1
+            masks[1, 9:14, 8:14] = 1
+            amp = masks.sum(axis=0)
+        else:
+            masks = None
+            amp = lentil.circle(shape, 6, antialias=False)
+        dx = 1e-3
+        r, c = lentil.helper.mesh(shape)
+        a_, b_ = rng.choice((2e-6, -1e-6, 3e-6)), rng.choice((1e-6, -2e-6))
+        opd = (a_ * r + b_ * c) * dx                          # a pure ramp: the residual after the fit is zero
+        for junk in (np.nan, 1e30, 0.0):
+            n += 1
+            ctx.case(('outside-mask', segmented, str(junk), shape, a_, b_))
+            oj = np.where(amp != 0, opd, junk)
+            with warnings.catch_warnings():
+                warnings.simplefilter('ignore')
+                try:
+                    p = lentil.Pupil(amplitude=amp, opd=oj, mask=masks, pixelscale=dx, focal_length=2.0)
+                    ref = lentil.Pupil(amplitude=amp, opd=np.where(amp != 0, opd, 0.0), mask=masks, pixelscale=dx, focal_length=2.0).fit_tilt()
+                    pf = p.fit_tilt()
+                    rt = np.array([[t.x, t.y] for t in pf.tilt])
+                    et = np.array([[t.x, t.y] for t in ref.tilt])
+                    inside = amp != 0
+                    ok = rt.shape == et.shape and np.allclose(rt, et, rtol=1e-9, atol=1e-15) and \
+                        np.allclose(np.asarray(pf.opd)[inside], np.asarray(ref.opd)[inside], rtol=0, atol=1e-15)
+                    if ok:
+                        kw = dict(pixelscale=20e-6, shape=24, oversample=1)
+                        fa = lentil.propagate_dft(lentil.Wavefront(1e-6) * pf, **kw).field
+                        fb = lentil.propagate_dft(lentil.Wavefront(1e-6) * ref, **kw).field
+                        ok = np.all(np.isfinite(fa)) and np.allclose(fa, fb, rtol=1e-9, atol=1e-12)
+                    err = None
+                except Exception as ex:
+                    ok, err = False, repr(ex)[:160]
+            if not ok:
+                ctx.violation({'kind': 'fit-tilt-reads-outside-the-mask', 'segmented': segmented, 'outside': str(junk)}, {'shape': list(shape), 'error': err}, case=None)
+        # the same aperture with its amplitude stored as complex numbers
+        n += 1
+        ctx.case(('complex-typed-amplitude', segmented, shape, a_, b_))
+        try:
+            ref = lentil.Pupil(amplitude=amp, opd=opd * (amp != 0), mask=masks, pixelscale=dx, focal_length=2.0).fit_tilt()
+            pc = lentil.Pupil(amplitude=amp.astype(complex), opd=opd * (amp != 0), mask=masks, pixelscale=dx, focal_length=2.0).fit_tilt()
+            rt = np.array([[t.x, t.y] for t in pc.tilt])
+            ok = not np.iscomplexobj(rt) and np.allclose(rt, np.array([[t.x, t.y] for t in ref.tilt]), rtol=1e-9, atol=1e-15)
+            if ok:
+                kw = dict(pixelscale=20e-6, shape=24, oversample=1)
+                ok = np.allclose(lentil.propagate_dft(lentil.Wavefront(1e-6) * pc, **kw).field, lentil.propagate_dft(lentil.Wavefront(1e-6) * ref, **kw).field, rtol=1e-9, atol=1e-12)
+            err = None
+        except TypeError as ex:
+            ok, err = 'fit_tilt' in repr(ex) or True, repr(ex)[:160]        # (an immediate refusal of complex storage is not a wrong value)
+            try:
+                lentil.Pupil(amplitude=amp.astype(complex), opd=opd * (amp != 0), mask=masks, pixelscale=dx, focal_length=2.0).fit_tilt()
+            except Exception:
+                ok = True
+            else:
+                ok = False              # accepted by fit_tilt, refused only later at propagation
+        except Exception as ex:
+            ok, err = False, repr(ex)[:160]
+        if not ok:
+            ctx.violation({'kind': 'complex-typed-amplitude-through-fit-tilt', 'segmented': segmented}, {'shape': list(shape), 'error': err}, case=None)
+        # in place on a shallow copy: the original keeps describing what it described
+        n += 1
+        ctx.case(('fit-on-shallow-copy', segmented, shape, a_, b_))
+        P = lentil.Pupil(amplitude=amp, opd=opd * (amp != 0), mask=masks, pixelscale=dx, focal_length=2.0)
+        before = (np.array(P.opd, copy=True), len(P.tilt))
+        Q = copy.copy(P)
+        Q.fit_tilt(inplace=True)
+        if len(P.tilt) != before[1] or not np.array_equal(np.asarray(P.opd), before[0]):
+            ctx.violation({'kind': 'fit-tilt-in-place-on-a-shallow-copy-changes-the-original', 'segmented': segmented},
+                          {'tilts_recorded_on_the_original': len(P.tilt) - before[1], 'opd_changed': not np.array_equal(np.asarray(P.opd), before[0])}, case=None)
+    return n
+
+
 def sig_of(c, k, kind):
     return {'kind': kind, 'scenario': c['kind'], 'rep': c['rep'].split('-')[0] if c['rep'].startswith('order') else c['rep'],
             'nonsquare_px': c['nonsquare'], 'step_op': c['steps'][k]['op']}
@@ -467,6 +552,7 @@ def run(ctx):
                               case={'case': c1, 'spec': spec[c1['id']]})
     nleaf = dispersive_leaf(ctx, lentil, rng)
     ctx.extra['shared_segment_sample_cases'] = shared_pixel_leaf(ctx, lentil)
+    ctx.extra['outside_mask_and_copy_cases'] = outside_mask_leaf(ctx, lentil, rng)
     ctx.traces += len(cases) - nthm
     ctx.extra['higher_order_dispersive_leaf_cases'] = nleaf
     ctx.extra.update({'scenarios': nsc, 'shift_theorem_cases': nthm, 'cross_comparisons': ncross})
